@@ -418,14 +418,17 @@ def evaluate(prop, results, hangs, st, bound_check=False):
                 # runs exactly what the model of the unchanged algorithm does under the same rounding
                 refs = [t.lstrip("RE").split("~")[0] for t in ch.split()[1:]]
                 refs = [t for t in refs if t.isdigit() and t in r.reqs]
+                # (runs the model does not describe - out of range, NaN arithmetic on a zero-length segment of a
+                # garbage intermediate result - are no disagreement, exactly as in the correspondence count)
                 f.k_agree = all(r.impl.get(t) == r.model.get(t) or r.impl.get(t) == "MODELONLY" or t in r.outrange
+                                or (r.model.get(t) or "").startswith(("SKIP", "NONFINITE"))
                                 or same_up_to_representation(r.reqs[t], r.impl.get(t) or "", r.model.get(t) or "") for t in refs)
                 findings.append(f)
-        if any(c.startswith("pycmp") for c in r.checks):
+        if any(c.startswith("pycmp") or c.startswith("pyanti") for c in r.checks):
             bad = extra.cmp_oracle(r)
             for i, msg in bad:
                 findings.append(Finding("O", r, "check %d (%s): fail %s" % (i, r.checks[i], msg), check=i))
-            npy = len([c for c in r.checks if c.startswith("pycmp")])
+            npy = len([c for c in r.checks if c.startswith("pycmp") or c.startswith("pyanti")])
             st.passed += npy - len(set(i for i, _ in bad))
             st.check_skips -= npy
         if prop == "C16" and not invalid:
@@ -491,7 +494,7 @@ def structural_pairs():
 def build_cases(prop, tier, rng):
     """returns list of (label, [Case], dbg)"""
     q = tier == "quick"
-    fams_all = ["g1", "g2", "g3", "g4", "g12", "g13", "g14", "g2", "g10", "g11", "g1", "g12", "g13", "g15", "g18"]
+    fams_all = ["g1", "g2", "g3", "g4", "g12", "g13", "g14", "g2", "g10", "g11", "g1", "g12", "g13", "g15", "g18", "g19"]
     out = []
     if prop in ("C01", "C02", "C04"):
         n = 300 if q else 7200
